@@ -11,6 +11,7 @@ from ..flow import bound_from
 from ..index import AnalysisError, _walk_functions, dotted
 from ..kernel import Affine, OutsideFragment, affine, decide, parse, rename, sym_paths
 from ..report import Ctx
+from ..cfg import CFG
 
 PROP = "C09"
 LOC = "antismash/common/secmet/locations.py"
@@ -495,6 +496,54 @@ def _split(test: ast.AST):
     return out
 
 
+def _ancestors(node: ast.AST):
+    cur = getattr(node, "_parent", None)
+    while cur is not None:
+        yield cur
+        cur = getattr(cur, "_parent", None)
+
+
+def r09_7(ctx: Ctx) -> None:
+    """ `split_origin_bridging_location` returns the pre- and post-origin sections of a location in *reading* order:
+        ascending for a forward gene, descending for a reverse one.  The wrap point (end of the pre-origin section) and
+        any other coordinate extreme taken from a section is therefore an aggregate over its parts (min / max), or is
+        read under a test on the strand - never `section[0]` / `section[-1]`, which is an extreme on one strand only. """
+    from ..flow import fact_texts
+    files = [FEAT, LOC] if ctx.tier != "thorough" else sorted(ctx.repo.modules)
+    count = 0
+    for rel in files:
+        for qual, func in ctx.repo.functions(rel):
+            sections = set()
+            for node in walk_local(func):
+                if isinstance(node, ast.Assign) and isinstance(node.value, ast.Call) \
+                        and call_name(node.value).split(".")[-1] == "split_origin_bridging_location" \
+                        and isinstance(node.targets[0], ast.Tuple):
+                    sections |= {e.id for e in node.targets[0].elts if isinstance(e, ast.Name) and e.id != "_"}
+            if not sections:
+                continue
+            ctx.repo.consulted.add(rel)
+            cfg = CFG(func)
+            positional = [n for n in walk_local(func) if isinstance(n, ast.Attribute) and n.attr in ("start", "end")
+                          and isinstance(n.value, ast.Subscript) and isinstance(n.value.value, ast.Name)
+                          and n.value.value.id in sections and not isinstance(n.value.slice, ast.Slice)
+                          and not any(isinstance(x, ast.Name) for x in ast.walk(n.value.slice))]
+            count += 1
+            bad = []
+            for node in positional:
+                stmt = next((a for a in [node] + list(_ancestors(node)) if isinstance(a, ast.stmt)), None)
+                facts = fact_texts(cfg, stmt) if stmt is not None else set()
+                if not any("strand" in f for f in facts):
+                    bad.append(node)
+            ctx.ob("R09.7", rel, bad[0] if bad else func, qual, "section extremes are aggregates", not bad,
+                   "a coordinate extreme of a pre-/post-origin section (its parts are in reading order, descending on the "
+                   "reverse strand) is taken with min/max over the parts or under a test on the strand",
+                   detail="" if not bad else f"`{txt(bad[0])}` is the section's extreme on one strand only: for the reverse gene "
+                   "join{[20:38](-), [270:291](-), [240:261](-)} the wrap point becomes 261 instead of 291",
+                   form="; ".join(txt(n) for n in positional)[:120])
+    if count < 2:
+        raise AnalysisError(f"R09.7: expected at least 2 users of split_origin_bridging_location, found {count}")
+
+
 def run(ctx: Ctx) -> None:
     ctx.rule("R09.1", "affine protein->DNA conversion for single-exon genes on both strands; range guard", floor=6)
     ctx.rule("R09.2", "in-gene locations are not built by offset arithmetic on location.start/end", floor=2)
@@ -508,3 +557,5 @@ def run(ctx: Ctx) -> None:
     r09_5(ctx)
     ctx.rule("R09.6", "coordinate-ordered exon walks never see a gene that bridges the origin", floor=3)
     r09_6(ctx)
+    ctx.rule("R09.7", "extremes of origin sections are order-independent aggregates", floor=2)
+    r09_7(ctx)
